@@ -57,7 +57,7 @@ def read_verdict_file(path, chr_name):
     return res
 
 
-def real_collect(records, chr_lengths, high_memory, strategy="take_best"):
+def real_collect(records, chr_lengths, high_memory, strategy="take_best", pickled=False):
     """run the real DatasetProcessor.collect_reads on a record stream; records: numeric dicts grouped per chromosome in
     the order given (stream order within a chromosome).  Returns {chr number: [(read, [rec dicts])]} or an error."""
     DP, IA, MR, SER, IG, ST = _mods()
@@ -80,7 +80,11 @@ def real_collect(records, chr_lengths, high_memory, strategy="take_best"):
         def fake_collect(sample_, chr_id, args_):
             objs = [G.to_basic(r) for r in by_chr[chr_id]]
             pr = objs if args_.high_memory else [o.read_id for o in objs]
-            return set(), ST.EnumStats(), pr
+            res = (set(), ST.EnumStats(), pr)
+            if pickled:       # what ProcessPoolExecutor does to a worker's result when threads > 1
+                import pickle
+                res = pickle.loads(pickle.dumps(res))
+            return res
 
         class FakeLoader:
             def __init__(self, fname):
@@ -126,10 +130,11 @@ def stream_in_processing_order(records, chr_lengths):
     return res
 
 
-def model_verdicts(ctx, records, chr_lengths, high_memory, strategy="take_best"):
+def model_verdicts(ctx, records, chr_lengths, high_memory, strategy="take_best", pickled=False):
     """the model's prediction of the verdict files for a record stream"""
     stream = stream_in_processing_order(records, chr_lengths)
-    out = ctx.driver.run([vlib.req("C08.group", records=stream, strategy=strategy, high_memory=high_memory)])[0]
+    out = ctx.driver.run([vlib.req("C08.group", records=stream, strategy=strategy, high_memory=high_memory,
+                                   pickled=pickled)])[0]
     if isinstance(out, dict):
         return out
     if any(vlib.is_err(kv[1]) for kv in out):
@@ -271,18 +276,19 @@ def correspondence(ctx):
         lengths = collections.OrderedDict((c, rng.choice([1000, 2000, 2000, 3000])) for c in range(n_chroms))
         recs = gen_stream(rng, rng.randint(1, 8), n_chroms)
         strategy = "take_best" if rng.random() < 0.9 else "ignore_multimapper"
-        for hm in (False, True):
+        for hm, pk in ((False, False), (True, False), (True, True), (False, True)):
             ctx.evaluations += 1
-            ctx.count("op:collect_reads:" + ("high_memory" if hm else "default"))
-            mo = model_verdicts(ctx, recs, lengths, hm, strategy)
-            io = vlib.canon(real_collect(recs, lengths, hm, strategy))
+            ctx.count("op:collect_reads:" + ("high_memory" if hm else "default") + ("+worker_processes" if pk else ""))
+            mo = model_verdicts(ctx, recs, lengths, hm, strategy, pickled=pk)
+            io = vlib.canon(real_collect(recs, lengths, hm, strategy, pickled=pk))
             ctx.traces_validated += 1
             if isinstance(mo, dict) and "driver_error" in mo:
-                ctx.disagree("collect_reads", {"records": recs, "lengths": lengths, "high_memory": hm}, mo, io)
+                ctx.disagree("collect_reads", {"records": recs, "lengths": lengths, "high_memory": hm, "pickled": pk}, mo, io)
             elif not vlib.same(mo, io):
-                ctx.disagree("collect_reads", {"records": recs, "lengths": dict(lengths), "high_memory": hm, "strategy": strategy}, mo, io)
+                ctx.disagree("collect_reads", {"records": recs, "lengths": dict(lengths), "high_memory": hm, "pickled": pk,
+                                               "strategy": strategy}, mo, io)
             elif not vlib.is_err(mo) and any(v for v in mo.values()):
-                ctx.mark_nontrivial(["collect_reads", recs, hm])
+                ctx.mark_nontrivial(["collect_reads", recs, hm, pk])
     # 2. loader, introns, edges
     cases = []
     for _ in range(400 if quick else 4000):
@@ -338,6 +344,10 @@ def check_stream(recs, lengths):
     b = real_collect(recs, lengths, True)
     if a != b:
         fails.append(("flow:memory_modes_differ", "verdict files differ between the default and the --high_memory path"))
+    bp = real_collect(recs, lengths, True, pickled=True)
+    if a != bp:
+        fails.append(("flow:memory_modes_differ", "verdict files differ between the default path and the --high_memory "
+                      "path when the worker results are pickled (threads > 1)"))
     if vlib.is_err(a):
         fails.append(("flow:collect_raises", str(a)))
         return fails
